@@ -38,6 +38,8 @@ type runRec struct {
 	St   int    `json:"st"`
 	P    int    `json:"p"`
 	K    int    `json:"k"`
+	Ifs  []string `json:"ifs"` // optional interfaces of the writer (StringWriter, ByteWriter, ReaderFrom)
+	Via  []int  `json:"via"`   // method of each logged call: 0 Write, 1 WriteString, 2 WriteByte, 3 ReadFrom
 	Off  []int  `json:"off"`
 	Acc  []int  `json:"acc"`
 	Err  []int  `json:"err"`
@@ -48,7 +50,7 @@ type runRec struct {
 	Slen int    `json:"slen"`
 	Sw   int    `json:"sw"`
 	H    int    `json:"h"`  // position in a history of back-to-back calls (0: main loop)
-	Bc   int    `json:"bc"` // Write calls of the very first, never-failing WriteTo of this module
+	Bc   int    `json:"bc"` // calls of the first never-failing WriteTo of this module to a writer with the same interfaces
 
 	src   int // index of the subject
 	panic string
@@ -82,19 +84,19 @@ func lcp(a []byte, s string) int {
 // runOne calls the real Module.WriteTo against an instrumented writer.
 func runOne(id, src int, s *subject, b behaviour, rng *rand.Rand) *runRec {
 	w := newWriter(b, len(s.Str), rng)
-	r := &runRec{ID: id, Mode: b.Mode, P: b.Piece, K: b.Cap, src: src, b: b, Slen: len(s.Str), Bc: len(s.Chunks)}
+	r := &runRec{ID: id, Mode: b.Mode, P: b.Piece, K: b.Cap, Ifs: ifaceNames(b.Ifs), src: src, b: b, Slen: len(s.Str), Bc: len(s.ChunksBy[b.Ifs&ifAll])}
 	if b.Sticky {
 		r.St = 1
 	}
 	var n int64
 	var err error
-	if msg, p := mbt.Guard(func() { n, err = s.M.WriteTo(w) }); p {
+	if msg, p := mbt.Guard(func() { n, err = s.M.WriteTo(asWriter(w, b.Ifs)) }); p {
 		r.panic = msg
 	}
 	r.N, r.E = n, w.errIdentity(err)
-	r.Off, r.Acc, r.Err = make([]int, len(w.log)), make([]int, len(w.log)), make([]int, len(w.log))
+	r.Via, r.Off, r.Acc, r.Err = make([]int, len(w.log)), make([]int, len(w.log)), make([]int, len(w.log)), make([]int, len(w.log))
 	for i, c := range w.log {
-		r.Off[i], r.Acc[i], r.Err[i] = c.off, c.acc, c.err
+		r.Via[i], r.Off[i], r.Acc[i], r.Err[i] = c.via, c.off, c.acc, c.err
 	}
 	r.Dlen, r.Lcp, r.Sw = len(w.sink), lcp(w.sink, s.Str), w.sinkW
 	return r
@@ -128,6 +130,70 @@ func offsets(L int, chunks []int, all bool, stride int) []int {
 	ks := make([]int, 0, len(set))
 	for k := range set {
 		ks = append(ks, k)
+	}
+	sort.Ints(ks)
+	return ks
+}
+
+// gridOffsets chooses the failure offsets for a module with prints of very different sizes.  logs are
+// the call sizes of the never-failing first calls (one per interface set).  Beside the ends of String():
+// every observed call boundary and its neighbours and the middle of every call; and, because an
+// implementation may hand a large print on in pieces whose size the harness does not know, inside every
+// call of >= 1 KiB the grid of the piece sizes P = 512, 1 Ki, 2 Ki ... : for P >= allFrom every piece m
+// (boundary m*P and its neighbours, and the middle of the piece), for smaller P the pieces 1, 2 and the
+// last one.  sparse (quick tier, module of more than 1 MiB, where one run costs 80 ms): calls below
+// 1 KiB contribute their end only, the grid starts at P = 4 Ki.
+func gridOffsets(L int, logs [][]int, allFrom int, sparse bool) []int {
+	set := map[int]bool{0: true, 1: true, L - 1: true, L: true, L + 3: true}
+	put := func(k int) {
+		if k >= 0 && k <= L {
+			set[k] = true
+		}
+	}
+	for _, log := range logs {
+		pos := 0
+		for _, c := range log {
+			start := pos
+			pos += c
+			put(pos)
+			if c < 1024 && sparse {
+				continue
+			}
+			put(pos - 1)
+			put(pos + 1)
+			if c >= 2 {
+				put(start + c/2)
+			}
+			if c < 1024 {
+				continue
+			}
+			P0 := 512
+			if sparse {
+				P0 = 4096
+			}
+			for P := P0; P < c; P *= 2 {
+				last := (c - 1) / P
+				for m := 1; m <= last; m++ {
+					if P < allFrom && m > 2 && m != last {
+						continue
+					}
+					put(start + m*P - 1)
+					put(start + m*P)
+					if !sparse {
+						put(start + m*P + 1)
+					}
+					if start+m*P+P/2 < pos {
+						put(start + m*P + P/2)
+					}
+				}
+			}
+		}
+	}
+	ks := make([]int, 0, len(set))
+	for k := range set {
+		if k >= 0 {
+			ks = append(ks, k)
+		}
 	}
 	sort.Ints(ks)
 	return ks
@@ -170,9 +236,11 @@ func design(rep *mbt.Report, tier string) {
 	var jobs []*tlcJob
 	main := map[string]string{}
 	dev := map[string]string{"MaxChunks": "3"}
+	devDirect := map[string]string{"MaxChunks": "2"} // deviations of the direct route
 	if tier == "thorough" {
 		main = map[string]string{"MaxChunks": "5", "Pieces": "{0, 1, 2, 3}"}
 		dev = map[string]string{}
+		devDirect = map[string]string{}
 	}
 	add := func(name, spec, file string, inv []string, consts map[string]string, want []string) {
 		cfgName := strings.ReplaceAll(name, "/", ".") + ".cfg"
@@ -213,6 +281,38 @@ func design(rep *mbt.Report, tier string) {
 	add("pooled/CountExact", "Writer", "WriterPooled.cfg", []string{"TypeOK", "CountExact", "NoWriteAfterFailure", "PrefixDelivered"}, nil, nil)
 	for _, inv := range []string{"NeverFails", "AlwaysFails", "NeverSkips", "NoHistory"} {
 		add("vacuity/"+inv, "Writer", "WriterVacuity.cfg", []string{inv}, nil, []string{inv})
+	}
+	// The interface set of the writer and the routes of a print.  A wrapper that hands ready strings to
+	// WriteString / ReadFrom where the writer has them, else to Write in pieces of <= MaxWrite bytes, and
+	// separator bytes to WriteByte, obeys every law (prints of up to three pieces, every interface set):
+	// the laws are over every method through which bytes reach the writer.
+	direct := map[string]string{}
+	if tier == "thorough" {
+		direct = map[string]string{"UnitSizes": "{0, 1, 2, 3, 5}",
+			"IfaceSets": `{{}, {"StringWriter"}, {"ByteWriter"}, {"ReaderFrom"}, {"StringWriter", "ByteWriter"}, {"StringWriter", "ReaderFrom"}, {"ByteWriter", "ReaderFrom"}, {"StringWriter", "ByteWriter", "ReaderFrom"}}`}
+	}
+	add("direct-route", "Writer", "WriterDirect.cfg", nil, direct, nil)
+	// the piece loop adds the running total of the print once per piece: only CountExact breaks, only for a
+	// writer without WriteString / ReadFrom and a print of more than one piece
+	running := merge(devDirect, map[string]string{"PieceCount": `"running"`})
+	add("running-count/CountExact", "Writer", "WriterDirect.cfg", []string{"CountExact"}, running, []string{"CountExact"})
+	add("running-count/other-laws", "Writer", "WriterDirect.cfg", []string{"TypeOK", "NoWriteAfterFailure", "PrefixDelivered", "FirstError", "FailsAtCapacity"}, running, nil)
+	add("running-count/invisible-with-WriteString", "Writer", "WriterDirect.cfg", []string{"CountExact", "NoFailEqualsString"},
+		merge(running, map[string]string{"IfaceSets": `{{"StringWriter"}, {"ReaderFrom"}, {"StringWriter", "ByteWriter", "ReaderFrom"}}`}), nil)
+	add("running-count/invisible-for-one-piece", "Writer", "WriterDirect.cfg", []string{"CountExact", "NoFailEqualsString"},
+		merge(running, map[string]string{"UnitSizes": "{0, 1, 2}"}), nil)
+	// the latch replaced by a redirection to io.Discard: correct if every view of the writer is redirected;
+	// with views cached at construction the writer is still called through them after the failure
+	redirect := merge(devDirect, map[string]string{"LatchBy": `"redirect"`})
+	cached := merge(redirect, map[string]string{"CachedViews": "TRUE"})
+	add("redirect/all-views", "Writer", "WriterDirect.cfg", nil, redirect, nil)
+	for _, inv := range []string{"NoWriteAfterFailure", "PrefixDelivered", "CountExact"} {
+		add("redirect-cached-views/"+inv, "Writer", "WriterDirect.cfg", []string{inv}, cached, []string{inv})
+	}
+	add("redirect-cached-views/FirstError", "Writer", "WriterDirect.cfg", []string{"TypeOK", "FirstError", "NoFailEqualsString", "StringNeverPanics"}, cached, nil)
+	add("redirect-cached-views/invisible-for-plain-writer", "Writer", "WriterDirect.cfg", nil, merge(cached, map[string]string{"IfaceSets": "{{}}"}), nil)
+	for _, inv := range []string{"NoThreePieces", "NoFailInLaterPiece", "NoWriteString", "NoWriteByte", "NoReadFrom"} {
+		add("vacuity-direct/"+inv, "Writer", "WriterDirect.cfg", []string{inv}, devDirect, []string{inv})
 	}
 	sem := make(chan struct{}, 5)
 	var wg sync.WaitGroup
@@ -262,20 +362,34 @@ func vecKey(src int, b behaviour, call int, prevFailed bool) string {
 	return fmt.Sprintf("%s|call%d|%v", b.key(src), call, prevFailed)
 }
 
-// generate runs Writer.tla on the recorded chunk sizes of the small subjects (direction G).
-func generate(rep *mbt.Report, subs []*subject, small []int, pieces []int) map[string]vector {
-	var rows [][]int
+// genRow is one line of chunks.ndjson (Writer!Given): the prints of a module and the writers to try.
+type genRow struct {
+	C   []int `json:"c"`   // sizes of the prints
+	All int   `json:"all"` // 1: every capacity 0..len(String()); 0: the capacities K
+	K   []int `json:"k"`
+	P   []int `json:"p"` // re-chunking piece sizes
+}
+
+// generate runs Writer.tla on the recorded chunk sizes of the small subjects (every capacity) and of
+// the subjects with large prints (the capacities tried) (direction G).
+func generate(rep *mbt.Report, subs []*subject, small []int, pieces []int, largeSubs []int, largeCaps map[int][]int, lPieces []int) map[string]vector {
+	var rows []genRow
+	var srcs []int
+	want := 0
 	for _, si := range small {
-		rows = append(rows, subs[si].Chunks)
+		rows = append(rows, genRow{C: append([]int{}, subs[si].Chunks...), All: 1, K: []int{0}, P: pieces})
+		srcs = append(srcs, si)
+		// first calls: every capacity x {whole, prefix} x {sticky, recovering} x pieces, plus never x pieces;
+		// second calls (healthy writer): pieces x {after a failed call, after a successful call}
+		want += (len(subs[si].Str)+1)*4*len(pieces) + len(pieces) + 2*len(pieces)
 	}
-	ps := make([]string, len(pieces))
-	for i, p := range pieces {
-		ps[i] = strconv.Itoa(p)
+	for _, si := range largeSubs {
+		rows = append(rows, genRow{C: append([]int{}, subs[si].Chunks...), All: 0, K: largeCaps[si], P: lPieces})
+		srcs = append(srcs, si)
+		want += len(largeCaps[si])*4*len(lPieces) + len(lPieces) + 2*len(lPieces)
 	}
-	t := mbt.MustTLC(mbt.TLCOpts{Spec: "Writer", Cfg: "WriterGen.gen.cfg", Workers: 8, Timeout: 15 * time.Minute,
-		Data: map[string][]byte{
-			"WriterGen.gen.cfg": cfgWith("WriterGen.cfg", nil, map[string]string{"Pieces": "{" + strings.Join(ps, ", ") + "}"}),
-			"chunks.ndjson":     mbt.NDJSONBytes(rows)}})
+	t := mbt.MustTLC(mbt.TLCOpts{Spec: "Writer", Cfg: "WriterGen.cfg", Workers: 8, Timeout: 15 * time.Minute,
+		Data: map[string][]byte{"chunks.ndjson": mbt.NDJSONBytes(rows)}})
 	defer t.Cleanup()
 	if len(t.Violated) > 0 {
 		softInfra(rep, "Writer.tla (as written) violates %v on the chunk sequences of real modules: specification error\n%s", t.Violated, mbt.Truncate(t.Output, 3000))
@@ -285,13 +399,7 @@ func generate(rep *mbt.Report, subs []*subject, small []int, pieces []int) map[s
 	for _, m := range reVec.FindAllStringSubmatch(t.Output, -1) {
 		iv := func(i int) int { v, _ := strconv.Atoi(m[i]); return v }
 		v := vector{b: behaviour{Mode: m[2], Sticky: m[3] == "TRUE", Piece: iv(4), Cap: iv(5)}, n: iv(6), errAt: iv(7), calls: iv(8), dlen: iv(9), sw: iv(10), call: iv(11), prevFailed: m[12] == "TRUE"}
-		vecs[vecKey(small[iv(1)-1], v.b, v.call, v.prevFailed)] = v
-	}
-	want := 0
-	for _, si := range small {
-		// first calls: every capacity x {whole, prefix} x {sticky, recovering} x pieces, plus never x pieces;
-		// second calls (healthy writer): pieces x {after a failed call, after a successful call}
-		want += (len(subs[si].Str)+1)*4*len(pieces) + len(pieces) + 2*len(pieces)
+		vecs[vecKey(srcs[iv(1)-1], v.b, v.call, v.prevFailed)] = v
 	}
 	if len(vecs) != want {
 		softInfra(rep, "generator: %d vectors parsed, %d expected", len(vecs), want)
@@ -382,8 +490,22 @@ func describe(r *runRec) string {
 			first = j + 1
 		}
 	}
-	return fmt.Sprintf("WriteTo returned n=%d err=%s; writer saw %d Write calls, accepted %d bytes, first failing call %d; %d bytes delivered, %d of them a prefix of String() (len %d)",
-		r.N, errName(r.E), len(r.Off), acc, first, r.Dlen, r.Lcp, r.Slen)
+	methods := [4]int{}
+	for _, v := range r.Via {
+		methods[v&3]++
+	}
+	return fmt.Sprintf("WriteTo returned n=%d err=%s; writer saw %d calls (%d Write, %d WriteString, %d WriteByte, %d ReadFrom), accepted %d bytes, first failing call %d; %d bytes delivered, %d of them a prefix of String() (len %d)",
+		r.N, errName(r.E), len(r.Off), methods[0], methods[1], methods[2], methods[3], acc, first, r.Dlen, r.Lcp, r.Slen)
+}
+
+func maxInt(a []int) int {
+	m := 0
+	for _, v := range a {
+		if v > m {
+			m = v
+		}
+	}
+	return m
 }
 
 func errName(e int) string {
@@ -413,10 +535,10 @@ func (r *runRec) context(subs []*subject) string {
 
 // caseOf is the replayable description of a run: the call itself and the call made just before it.
 func caseOf(subs []*subject, r *runRec) map[string]interface{} {
-	c := map[string]interface{}{"subject": subs[r.src].Name, "mode": r.b.Mode, "sticky": r.b.Sticky, "piece": r.b.Piece, "cap": r.b.Cap,
+	c := map[string]interface{}{"subject": subs[r.src].Name, "mode": r.b.Mode, "sticky": r.b.Sticky, "piece": r.b.Piece, "cap": r.b.Cap, "ifs": r.b.Ifs,
 		"observed": map[string]interface{}{"n": r.N, "e": r.E, "calls": len(r.Off), "dlen": r.Dlen, "lcp": r.Lcp, "slen": r.Slen}}
 	if r.pre != nil {
-		c["pre"] = map[string]interface{}{"subject": subs[r.pre.src].Name, "mode": r.pre.b.Mode, "sticky": r.pre.b.Sticky, "piece": r.pre.b.Piece, "cap": r.pre.b.Cap}
+		c["pre"] = map[string]interface{}{"subject": subs[r.pre.src].Name, "mode": r.pre.b.Mode, "sticky": r.pre.b.Sticky, "piece": r.pre.b.Piece, "cap": r.pre.b.Cap, "ifs": r.pre.b.Ifs}
 	}
 	return c
 }
@@ -433,14 +555,31 @@ func prepare(rep *mbt.Report, subs []*subject, rng *rand.Rand) []*subject {
 			rep.Note("%s: String() panics (%s): not usable for C19", s.Name, mbt.Truncate(msg, 120))
 			continue
 		}
-		r := runOne(0, i, s, behaviour{Mode: "never"}, rng)
-		if diff := healthyDiff(r, s); diff != "" || r.panic != "" {
-			rep.Count("first-call|"+s.Name, true)
-			rep.Fail(mbt.Failure{Signature: "C19|WriteTo|never-failing-writer|first call: " + diff, What: fmt.Sprintf("%s: first WriteTo of the process to a never-failing writer: %s %s", s.Name, describe(r), r.panic),
-				Case: map[string]interface{}{"subject": s.Name, "mode": "never", "sticky": false, "piece": 0, "cap": 0}})
+		// the very first call goes to a writer that has io.Writer only; then one first call per interface set
+		healthy := true
+		for ifs := 0; ifs <= ifAll; ifs++ {
+			b := behaviour{Mode: "never", Ifs: ifs}
+			r := runOne(0, i, s, b, rng)
+			if diff := healthyDiff(r, s); diff != "" || r.panic != "" {
+				if r.panic != "" {
+					diff += "panic"
+				}
+				cls := ""
+				if ifs != 0 {
+					cls = "@" + strings.Join(ifaceNames(ifs), "+")
+				}
+				rep.Count("first-call|"+s.Name+cls, true)
+				rep.Fail(mbt.Failure{Signature: "C19|WriteTo|never-failing-writer|first call: " + diff + cls, What: fmt.Sprintf("%s: first WriteTo of the process to a never-failing writer with the interfaces io.Writer %v: %s %s", s.Name, ifaceNames(ifs), describe(r), r.panic),
+					Case: map[string]interface{}{"subject": s.Name, "mode": "never", "sticky": false, "piece": 0, "cap": 0, "ifs": ifs}})
+				healthy = false
+				continue
+			}
+			s.ChunksBy[ifs] = r.Off
+		}
+		if !healthy {
 			continue
 		}
-		s.Chunks = r.Off
+		s.Chunks = s.ChunksBy[0]
 		ok = append(ok, s)
 	}
 	return ok
@@ -534,9 +673,9 @@ func Run(tier, replay string) {
 		r.H, r.pre = h, last
 		last = r
 		recs = append(recs, r)
-		key := fmt.Sprintf("%s|%s|h%d", subs[si].Name, b.key(si), h)
+		key := fmt.Sprintf("%s|%s|h%d", subs[si].Name, b.fullKey(si), h)
 		if h > 0 && r.pre != nil {
-			key += "|after " + subs[r.pre.src].Name + "|" + r.pre.b.key(r.pre.src)
+			key += "|after " + subs[r.pre.src].Name + "|" + r.pre.b.fullKey(r.pre.src)
 		}
 		rep.Count(key, true)
 		if r.panic != "" {
@@ -584,7 +723,7 @@ func Run(tier, replay string) {
 		num := func(k string) int { f, _ := c[k].(float64); return int(f) }
 		mode, _ := c["mode"].(string)
 		st, _ := c["sticky"].(bool)
-		return behaviour{Mode: mode, Sticky: st, Piece: num("piece"), Cap: num("cap")}
+		return behaviour{Mode: mode, Sticky: st, Piece: num("piece"), Cap: num("cap"), Ifs: num("ifs")}
 	}
 
 	if replay != "" {
@@ -608,14 +747,25 @@ func Run(tier, replay string) {
 
 	gPieces, tPieces := []int{0, 2, 7}, []int{0, 7}
 	gLimit, allLimit, stride := 700, 1600, 37
+	lPieces := []int{0, 4096} // re-chunking piece sizes of the writers tried on the large modules
+	hugeFrom := 256 << 10     // modules of more than 1 MiB: every piece of the grid for piece sizes >= hugeFrom
 	if tier == "thorough" {
 		gPieces, tPieces = []int{0, 1, 2, 7, 64}, []int{0, 7}
 		gLimit, allLimit, stride = 3000, 12000, 6
+		hugeFrom = 16 << 10
 	}
+	// Interface sets: the writer with io.Writer only goes through everything as before; a writer that
+	// also has WriteString and one that has all optional interfaces (bufio.Writer, os.File) are tried at
+	// every offset; the other five sets at the reduced offsets.
+	ifsEvery := []int{ifStringWriter, ifAll}
+	ifsReduced := []int{ifByteWriter, ifReaderFrom, ifStringWriter | ifByteWriter, ifStringWriter | ifReaderFrom, ifByteWriter | ifReaderFrom}
 	var small []int
 	isSmallSub := map[int]bool{}
 	allOffsets := []string{}
 	strided := []string{}
+	large := []string{}
+	var largeSubs []int
+	largeCaps := map[int][]int{}
 	for si, s := range subs {
 		// a never-failing writer that takes every Write in one piece; from the second module on this call
 		// follows the failing calls on the previous module
@@ -624,6 +774,48 @@ func Run(tier, replay string) {
 			covered[sec] = true
 		}
 		L := len(s.Str)
+		if s.Large {
+			// prints of 1 byte ... > 1 MiB: every interface set, failure offsets inside every piece
+			// every offset x {whole, prefix} x the writers with io.Writer only, + WriteString, + all three; the
+			// other five interface sets in turn.  A module of more than 1 MiB in the quick tier: one (mode,
+			// interface set) pair per offset, in turn.
+			logs := s.ChunksBy[:]
+			allFrom := 16 << 10
+			huge := L > 1<<20
+			if huge {
+				allFrom = hugeFrom
+			}
+			sparse := huge && tier != "thorough"
+			ks := gridOffsets(L, logs, allFrom, sparse)
+			largeSubs = append(largeSubs, si)
+			largeCaps[si] = ks
+			large = append(large, fmt.Sprintf("%s (%d bytes, %d writes, largest %d bytes; %d offsets)", s.Name, L, len(s.Chunks), maxInt(s.Chunks), len(ks)))
+			for ifs := 0; ifs <= ifAll; ifs++ {
+				if sparse && ifs != 0 && ifs != ifStringWriter && ifs != ifAll {
+					continue
+				}
+				for _, p := range []int{4096, -1} {
+					newRun(si, behaviour{Mode: "never", Piece: p, Ifs: ifs}, 0)
+				}
+				newRun(si, behaviour{Mode: "silent", Cap: 4096, Ifs: ifs}, 0)
+			}
+			main3 := []int{0, ifStringWriter, ifAll}
+			for i, k := range ks {
+				for mi, mode := range []string{"whole", "prefix"} {
+					sets := append(append([]int{}, main3...), ifsReduced[(2*i+mi)%len(ifsReduced)])
+					if sparse {
+						if i%2 != mi {
+							continue
+						}
+						sets = []int{main3[(i/2)%3]}
+					}
+					for j, ifs := range sets {
+						newRun(si, behaviour{Mode: mode, Sticky: (i+j)%2 == 1, Piece: lPieces[(i/2+j)%len(lPieces)], Cap: k, Ifs: ifs}, 0)
+					}
+				}
+			}
+			continue
+		}
 		isSmall := L <= gLimit
 		if isSmall {
 			small = append(small, si)
@@ -640,6 +832,12 @@ func Run(tier, replay string) {
 		// contract-violating short writes without error
 		for _, k := range []int{0, 1, 2, 7, 64} {
 			newRun(si, behaviour{Mode: "silent", Cap: k}, 0)
+		}
+		// ... and with every other interface set
+		for ifs := 1; ifs <= ifAll; ifs++ {
+			newRun(si, behaviour{Mode: "never", Ifs: ifs}, 0)
+			newRun(si, behaviour{Mode: "never", Piece: 7, Ifs: ifs}, 0)
+			newRun(si, behaviour{Mode: "silent", Cap: 2, Ifs: ifs}, 0)
 		}
 		all := isSmall || L <= allLimit
 		if all {
@@ -661,6 +859,19 @@ func Run(tier, replay string) {
 						newRun(si, behaviour{Mode: mode, Sticky: st, Piece: p, Cap: k}, 0)
 					}
 				}
+				// + WriteString at the even offsets, all optional interfaces at the odd ones (thorough: both)
+				for j, ifs := range ifsEvery {
+					if tier == "thorough" || k%2 == j {
+						newRun(si, behaviour{Mode: mode, Sticky: (k/2+j)%2 == 1, Cap: k, Ifs: ifs}, 0)
+					}
+				}
+			}
+		}
+		for i, k := range offsets(L, s.Chunks, false, stride) {
+			for _, mode := range []string{"whole", "prefix"} {
+				for j, ifs := range ifsReduced {
+					newRun(si, behaviour{Mode: mode, Sticky: (i+j)%2 == 1, Piece: pieces[(i+j)%len(pieces)], Cap: k, Ifs: ifs}, 0)
+				}
 			}
 		}
 	}
@@ -673,6 +884,8 @@ func Run(tier, replay string) {
 	rep.Extra["sections_of_WriteTo_exercised"] = allSections
 	rep.Extra["modules_every_offset"] = allOffsets
 	rep.Extra["modules_strided_offsets"] = strided
+	rep.Extra["modules_large_prints"] = large
+	rep.Extra["writer_interface_sets"] = map[string]interface{}{"every_offset": [][]string{{}, ifaceNames(ifStringWriter), ifaceNames(ifAll)}, "reduced_offsets": 5, "first_calls_and_never_failing": 8}
 	lap("runs of WriteTo")
 
 	// Histories: WriteTo(failing at k) ; WriteTo(healthy) on the same module ; String() ;
@@ -701,6 +914,16 @@ func Run(tier, replay string) {
 				ks[k] = true
 			}
 		}
+		if s.Large { // a call costs up to 80 ms: two offsets, one inside the largest print
+			ks = map[int]bool{0: true}
+			pos := 0
+			for _, c := range s.Chunks {
+				if c == maxInt(s.Chunks) {
+					ks[pos+c/2+c/3] = true
+				}
+				pos += c
+			}
+		}
 		var sorted []int
 		for k := range ks {
 			if k >= 0 && k < L {
@@ -709,16 +932,25 @@ func Run(tier, replay string) {
 		}
 		sort.Ints(sorted)
 		other := (si + 1) % len(subs)
-		for _, k := range sorted {
-			for _, mode := range []string{"whole", "prefix"} {
-				for _, p := range []int{0, 7} {
-					fb := behaviour{Mode: mode, Sticky: k%2 == 1, Piece: p, Cap: k}
+		if subs[other].Large && !s.Large {
+			other = 0 // only a large module is followed by a large one
+		}
+		for i, k := range sorted {
+			for mi, mode := range []string{"whole", "prefix"} {
+				for j, p := range []int{0, 7} {
+					if s.Large && (mi != i%2 || (p != 0 && tier != "thorough")) {
+						continue
+					}
+					// the failing and the healthy writer have the same or different interface sets
+					fifs := []int{0, ifStringWriter, ifAll, ifReaderFrom}[(i+j)%4]
+					hifs := []int{0, 0, ifStringWriter, ifAll, ifByteWriter}[(i+2*j)%5]
+					fb := behaviour{Mode: mode, Sticky: k%2 == 1, Piece: p, Cap: k, Ifs: fifs}
 					histories++
 					newRun(si, fb, 1)
-					hist2 = append(hist2, newRun(si, behaviour{Mode: "never"}, 2))
+					hist2 = append(hist2, newRun(si, behaviour{Mode: "never", Ifs: hifs}, 2))
 					checkString(si)
 					newRun(si, fb, 1)
-					hist2 = append(hist2, newRun(other, behaviour{Mode: "never", Piece: p}, 2))
+					hist2 = append(hist2, newRun(other, behaviour{Mode: "never", Piece: p, Ifs: hifs}, 2))
 					checkString(other)
 				}
 			}
@@ -744,20 +976,7 @@ func Run(tier, replay string) {
 	}
 
 	// (G) required outcomes generated by TLC from the specification, compared with the runs
-	vecs := generate(rep, subs, small, gPieces)
-	obs := map[string]*runRec{}
-	for _, r := range recs {
-		if r.H == 0 {
-			obs[r.b.key(r.src)] = r
-		}
-	}
-	keys := make([]string, 0, len(vecs))
-	for k := range vecs {
-		if vecs[k].call == 1 {
-			keys = append(keys, k)
-		}
-	}
-	sort.Strings(keys)
+	vecs := generate(rep, subs, small, gPieces, largeSubs, largeCaps, lPieces)
 	compared := 0
 	compare := func(v vector, r *runRec, k string) {
 		compared++
@@ -783,13 +1002,47 @@ func Run(tier, replay string) {
 				Case: caseOf(subs, r)})
 		}
 	}
-	for _, k := range keys {
-		r := obs[k]
-		if r == nil {
-			softInfra(rep, "generator vector %s was not replayed", k)
+	// Writer.tla as written never consults the interface set: the vector of (module, sink behaviour) is
+	// the required outcome for the runs of EVERY interface set.
+	replayed := map[string]*runRec{}
+	byIfs := map[int]int{}
+	for _, r := range recs {
+		if r.H != 0 {
+			continue
 		}
-		compare(vecs[k], r, k)
+		k := r.b.key(r.src)
+		v, ok := vecs[k]
+		if !ok {
+			continue // random re-chunking, silent writers, capacities or pieces outside the generator's sets
+		}
+		if r.b.Ifs == 0 || replayed[k] == nil {
+			replayed[k] = r
+		}
+		byIfs[r.b.Ifs]++
+		compare(v, r, k)
 	}
+	keys := make([]string, 0, len(vecs))
+	for k, v := range vecs {
+		if v.call == 1 {
+			keys = append(keys, k)
+		}
+	}
+	sort.Strings(keys)
+	unreplayed := 0
+	for _, k := range keys {
+		if replayed[k] == nil {
+			unreplayed++
+			if src, _ := strconv.Atoi(strings.SplitN(k, "|", 2)[0]); isSmallSub[src] {
+				softInfra(rep, "generator vector %s was not replayed", k)
+			}
+		}
+	}
+	perIfs := map[string]int{}
+	for ifs, n := range byIfs {
+		perIfs["io.Writer+"+strings.Join(ifaceNames(ifs), "+")] = n
+	}
+	rep.Extra["generated_vectors_replayed_per_interface_set"] = perIfs
+	rep.Extra["generated_vectors_of_large_modules_not_replayed"] = unreplayed
 	// the healthy second calls of the histories against the vectors TLC generated for second calls
 	second := 0
 	for _, r := range hist2 {
@@ -809,7 +1062,13 @@ func Run(tier, replay string) {
 	rep.Extra["generated_second_call_vectors_replayed"] = second
 	if len(keys) > 0 {
 		k := keys[len(keys)/2]
-		v, r := vecs[k], obs[k]
+		for i := 0; replayed[k] == nil && i < len(keys); i++ {
+			k = keys[i]
+		}
+		v, r := vecs[k], replayed[k]
+		if r == nil {
+			softInfra(rep, "no generator vector was replayed")
+		}
 		rep.Sample(map[string]interface{}{"kind": "generated-vector", "module": subs[r.src].Name, "writer": fmt.Sprintf("%+v", v.b),
 			"required": map[string]int{"n": v.n, "errAt": v.errAt, "calls": v.calls, "delivered": v.dlen}, "observed": describe(r)})
 	}
